@@ -48,6 +48,17 @@ def main():
         for _ in range(2 if not thorough else 4):
             ops = rng.sample(cands, rng.randint(1, min(3, len(cands))))
             add(m, {"mode": "custom", "ops": ops}, "custom-linear")
+    # symmetry broken only by a term that is tiny but numerically non-zero (2^-30 ... 2^-20): the acceptance test of an integral of motion
+    # and the matrix elements H is built from must agree on what "zero" is, or H gets elements between blocks.  The specification
+    # knows the unperturbed model only; the perturbation is seen through the library's own operator expression (event field "cross").
+    for (k, ex) in enumerate((30, 26, 22) if not thorough else (34, 30, 28, 26, 24, 22, 20)):
+        d2 = models.dimer()
+        # transverse field on site A breaks S_z; a pair field on site B breaks N
+        tf = [{"ops": [[1, "A", 0, 0], [0, "A", 0, 1]], "exp": ex}, {"ops": [[1, "A", 0, 1], [0, "A", 0, 0]], "exp": ex}]
+        pf = [{"ops": [[1, "B", 0, 0], [1, "B", 0, 1]], "exp": ex}, {"ops": [[0, "B", 0, 1], [0, "B", 0, 0]], "exp": ex}]
+        add(dict(d2, id="tinySx%d" % ex, tiny=tf), {"mode": "default"}, "default")
+        add(dict(d2, id="tinyPair%d" % ex, tiny=pf), {"mode": "default"}, "default")
+        add(dict(d2, id="tinyBoth%d" % ex, tiny=tf + pf), {"mode": "default"}, "default")
     # probes of the two recorded defects, in classes of their own
     diag = models.model("diag2", [["A", 1, 2]], [models.P("addCoulombS", "A", 8, -4)])
     add(diag, {"mode": "custom", "ops": [[[1, 1, [0, 1]]]]}, "custom-nonlinear:n0n1")
